@@ -51,7 +51,11 @@ PROP = {
             "publisher / subscriber decorators (AddPublisherDecorators / AddSubscriberDecorators), Run, handlers added to the running "
             "router, RunHandlers one to three times in a row, more decorators in between - then messages through all handlers: every "
             "Publish call must have passed each publisher decorator registered before ITS handler's start exactly once, every "
-            "consumed message each such subscriber decorator exactly once. Every message object (consumed copy, each fresh output, "
+            "consumed message each such subscriber decorator exactly once. The recording publisher decorators READ the five context values of every message handed to them: the handler's "
+            "values must be there at every publisher decorator and at the publisher. app_wrapped_subscriber: 4 fixed wirings and "
+            "about a quarter of the random subscriber objects are subscribers the APPLICATION has wrapped itself with the public "
+            "MessageTransformSubscriberDecorator (alone, shared by handlers, next to raw ones, with router decorators) - the context "
+            "clause is unchanged for their handlers. Every message object (consumed copy, each fresh output, "
             "each middleware output) carries a marker on its OWN context from its creation; the publisher records for every element "
             "of every call which marker its context still has (own context kept, none replaced by another element's). Observation canonical per handler (Go map order in "
             "RunHandlers is random). Oracles: model observation equality and the property monitor. Non-trivial = >= 2 handlers and "
@@ -59,7 +63,7 @@ PROP = {
     "trusted_base": [
         "Lean 4.33.0 kernel; axioms per theorem listed under theorem_axioms (subset of propext, Classical.choice, Quot.sound)",
         "extractor harness/cmd/extract/c08.go (go/ast: the set statements of handler.addHandlerContext with their guards if any, the "
-        "key each of the five accessors reads, the values of the key constants; 26 structural facts: RunHandlers decorates inside its one loop after the started-guard, the exact control-flow skeletons of handleMessage and publishProducedMessages, five unconditional WithValue sets,  AddHandler stores its parameters and computes the "
+        "key each of the five accessors reads, the values of the key constants; 27 structural facts: the subscriber context decorator is applied unconditionally, RunHandlers decorates inside its one loop after the started-guard, the exact control-flow skeletons of handleMessage and publishProducedMessages, five unconditional WithValue sets,  AddHandler stores its parameters and computes the "
         "type names from its own objects, RunHandlers subscribes h.subscriber on h.subscribeTopic and gives the channel to the same "
         "handler, handleMessage passes the returned slice untouched through addHandlerContext to one Publish(h.publishTopic, "
         "produced...) on h.publisher, guards for empty output / nil publisher, disabledPublisher) and the interpreter "
@@ -104,7 +108,7 @@ PROP = {
                   "obey the model's law on every run; model and an independent monitor are compared with the real Router on all "
                   "two-handler wirings and on random configurations of 1..6 handlers with interleaved streams.",
     "level_note": "Proved about the model, not about the Go code; the routing theorems are close to the model's definitions, the "
-                  "weight is on the correspondence (differential harness with pointer-identity recording publishers, 26 structural "
+                  "weight is on the correspondence (differential harness with pointer-identity recording publishers, 27 structural "
                   "facts, generated context code + 4 tie theorems, -race). The context clause is proved without a guard on the "
                   "incoming context (fix 5846d09); the pre-fix behaviour is kept as an Old witness model.",
     "technique": "Lean 4 theorems over a hand-written executable model + generated deep-embedded context code with tie theorems + "
